@@ -36,8 +36,8 @@ RULE_ALLOC = "heap bytes allocated during one call <= 64 MiB + 64 x len(input)"
 MUT_GROUPS_QUICK = [["commit", "pkt", "blkidx", "uintlist"], ["profile", "strlist"], ["table", "block", "pack"]]
 MUT_GROUPS_THOROUGH = [["commit"], ["profile"], ["table", "blkidx", "pkt"], ["block", "strlist", "uintlist"], ["pack"]]
 RAW_QUICK = {"strlist": 6, "uintlist": 6, "block": 6, "pack": 6, "pkthex": 6, "blkidx": 5, "pkt": 5}
-RAW_THOROUGH = {"strlist": 9, "uintlist": 9, "block": 9, "pack": 9, "pkthex": 9, "blkidx": 9, "pkt": 9}
-RAW_ALPHABET = {"pkthex": {48, 49, 102, 10}}
+RAW_THOROUGH = {"strlist": 9, "uintlist": 9, "block": 9, "pack": 9, "pkthex": 8, "blkidx": 9, "pkt": 9}
+RAW_ALPHABET = {"pkthex": {48, 49, 102, 10, 45}}   # "0" "1" "f" LF and "-" (a sign is not a hex digit)
 RAW_DEFAULT_ALPHABET = {0, 1, 2, 255}
 PACK_MAGIC = [80, 65, 67, 75, 0, 0, 0, 1]
 
